@@ -29,7 +29,10 @@ def run(chk):
         text, seen = r[1], r[2]
         d = c["desc"]
         if len(r) > 4 and r[4] is not None and c["main_variant"] is None:
-            uid, paths, g2 = r[4]
+            uid, paths, g2 = r[4][:3]
+            if len(r[4]) > 3 and r[4][3] != ["Replaced/Packages", "Replaced"]:
+                return ("after the nested variant %r was replaced under its parent by an object with other paths, writing with it as main "
+                        "variant gives packagedir/repository %r" % (uid, r[4][3]))
             if not isinstance(g2, dict):
                 return "a nested variant (%r) requested as main variant: %r" % (uid, g2)
             exp = {"variant": uid}
